@@ -171,9 +171,28 @@ def acceptance(sx, B):
     walker = RW(0, eng, maxdim=eng.boxsize, maxiter=maxiter)
     walker.molecule = mol
     bundle = np.array([[1.0, 0, 0]] * (ntr + 2))
-    with patched(rw, _take_step=take, fulfill_geometrical_constraints=lambda p, d: bool(P[trial["t"]][0]),
-                 is_restricted=lambda p, o, d: bool(P[trial["t"]][2])):
+    # the three residues carry different (marker) restraints and restrictions: the predicates must be asked about the residue
+    # that is being placed, with the trial point and the point grown from
+    for k in mol.nodes:
+        mol.nodes[k]["restraints"] = [("marker", k)]
+        mol.nodes[k]["rw_options"] = [("marker", k)]
+    asked = []
+
+    def geom(p, d):
+        asked.append(("geometry", d.get("restraints"), np.array(p), None))
+        return bool(P[trial["t"]][0])
+
+    def restr(p, o, d):
+        asked.append(("direction", d.get("rw_options"), np.array(p), np.array(o)))
+        return bool(P[trial["t"]][2])
+    with patched(rw, _take_step=take, fulfill_geometrical_constraints=geom, is_restricted=restr):
         ok = walker.update_positions(bundle, 2, 1)
+    for kind, marker, p, o in asked:
+        sx.claim(marker == [("marker", 2)], "the %s predicate is evaluated with the declarations of the residue being placed" % kind,
+                 lambda: "asked with %r" % (marker,))
+        sx.claim(any(np.array_equal(p, t) for t in tested), "the predicate is asked about the trial point")
+        if o is not None:
+            sx.claim(bool(np.array_equal(o, [1.5, 1.0, 1.0])), "the direction is measured from the residue grown from")
     # model: first trial whose predicates are all fine
     good = None
     for t in range(ntr):
@@ -398,3 +417,20 @@ def start_check(sx, B):
     if geom_ok:
         sx.claim(len(tested) >= 1 and bool(np.array_equal(tested[0][1], start)), "the overlap test is applied to the start point of every molecule",
                  lambda: "molecule %d: %r" % (mol_idx, tested))
+
+
+import harness.C16 as _c16      # noqa: E402
+
+
+@condition("C05.engine_histories",
+           anchors=["polyply.src.nonbond_engine:NonBondEngine.compute_force_point", "polyply.src.nonbond_engine:NonBondEngine.concatenate_trees",
+                    "polyply.src.nonbond_engine:NonBondEngine.add_positions"],
+           rejects=(), selector_only=True, must_cover=["add", "concatenate", "re-add"],
+           stubs=["as C16.histories"], cfg={"path_timeout_s": 60},
+           bounds={"quick": dict(nops=3, nops_big=2, npoints=2, big=[False]), "thorough": dict(nops=4, nops_big=2, npoints=2, big=[False, True])},
+           budget={"quick": 240, "thorough": 1500})
+def engine_histories(sx, B):
+    """'the soft-sphere force from the positioned non-neighbour residues': the force and overlap queries must see exactly the
+    residues positioned so far, with their own types - also after residues were added out of index order and the search trees
+    were consolidated. The C16.histories harness (every add / remove / consolidate history against a brute-force reference)."""
+    _c16.histories(sx, B)
